@@ -2518,6 +2518,196 @@ def check_global_copy(ck, facts):
 
 
 # =====================================================================================================
+# matrix mirrors: the column search for one buffer entry starts at the row start
+# =====================================================================================================
+
+def check_matrix_mirror_search(ck, facts):
+    """LAFEM::MatrixMirror::{gather, scatter_axpy} (CSR and BCSR): for every entry (i, j) of the buffer the matching entry of the matrix row is found by a linear
+    equality search over the row segment [row_ptr[r], row_ptr[r+1]).  Neither the buffer row nor the stencil need contain each other's columns (a received entry
+    may be missing in the local stencil, e.g. at re-entrant corners), so every search starts at the row start: the search loop's cursor is (re)initialised per
+    buffer entry with row_ptr[r] and bounded by row_ptr[r+1] of the same array and row.  A cursor that survives from the previous entry runs to the row end on the
+    first miss and drops every remaining entry of that buffer row."""
+    rule = "E2.search-restart"
+    for fn in facts.functions:
+        if fn.tk == "pattern" or strip_targs(fn.cls) != "FEAT::LAFEM::MatrixMirror" or fn.name not in ("gather", "scatter_axpy") or fn.cfg is None:
+            continue
+        rs = Resolver(fn)
+        par = dfl.parents(fn)
+        mods_ = norm._mods_of(fn)
+        mt = [re.sub(r".*LAFEM::(SparseMatrix\w+)<.*", r"\1", fn.type(p_["t"])) for p_ in fn.params if "SparseMatrix" in fn.type(p_["t"])]
+        nsearch = 0
+        for L in dfl.own_nodes(fn):
+            if L.get("k") not in ("For", "While"):
+                continue
+            # an equality search: if(A[cursor] == x) { ...; break; } directly in this loop
+            tests = []
+            for n in dfl.own_walk(L.get("body")):
+                if n.get("k") == "If" and norm._strip(n["c"]) is not None and norm._strip(n["c"]).get("k") == "Bin" and norm._strip(n["c"])["op"] == "==" \
+                        and any(x.get("k") == "Break" and norm._jump_loop(par, x) is L for x in walk(n["then"])):
+                    tests.append(n)
+            if not tests:
+                continue
+            nsearch += 1
+            key = "MatrixMirror::%s(%s)/search#%d" % (fn.name, ",".join(mt) or "?", nsearch)
+            lr = norm.loop_range(fn, L, par, mods_)
+            c = norm._strip(L.get("c"))
+            cur = None
+            if c is not None and c.get("k") == "Bin":
+                for x in (c["lhs"], c["rhs"]):
+                    x = norm._strip(x)
+                    if x is not None and x.get("k") == "Ref" and x.get("dk") == "local" and mods_.get(x.get("d")):
+                        cur = x
+            if lr is None:
+                if cur is not None:
+                    v = rs.var(cur["d"])
+                    outer = dfl.enclosing_loops(fn, par, L)
+                    decl_loops = dfl.enclosing_loops(fn, par, v) if v is not None else None
+                    inits = [m_ for m_ in mods_.get(cur["d"], []) if m_.get("k") == "Assign" and m_.get("op") == "=" and outer and
+                             dfl.enclosing_loops(fn, par, m_)[-1:] == outer[-1:] and "i" in m_ and "i" in L and fn.cfg.stmt_dominates(m_["i"], L["i"] if fn.cfg.block_of(L["i"]) else m_["i"])]
+                    if decl_loops is not None and outer and len(decl_loops) < len(outer) and [id(x) for x in decl_loops] == [id(x) for x in outer[:len(decl_loops)]] and not inits \
+                            and all(any(a_ is L for a_, s_ in dfl.enclosing_stmt_chain(par, m_)) for m_ in mods_.get(cur["d"], [])):
+                        ck.ob(rule, key, False, "the search cursor %s of the loop at line %s is initialised once per %s (line %s) and not per buffer entry: each search resumes where the "
+                              "previous one stopped, so after the first entry that is not in the row the cursor stays at the row end and every remaining entry of the buffer row "
+                              "is skipped (an entry missing in the local stencil is an admissible input; nothing establishes that both column lists are sorted)" % (
+                                  cur.get("n"), L.get("l"), "outer iteration" if decl_loops else "call", v.get("l")), fn.file, L.get("l"))
+                        continue
+                ck.incomplete(rule, "%s: the search loop at line %s is not a recognised counting loop over a row segment" % (key, L.get("l")))
+                continue
+
+            def seg(e):
+                """(offset array path, row index text, +1?) of  P[r]  /  P[r+1]"""
+                e = unwrap_val(rs, e)
+                if e is None or e.get("k") not in ("Index", "OpCall"):
+                    return None
+                b_, ix = (e["b"], e["idx"]) if e.get("k") == "Index" else (e["a"][0], e["a"][1]) if len(e.get("a", [])) == 2 else (None, None)
+                if b_ is None:
+                    return None
+                ixv = unwrap_val(rs, ix)
+                plus = 0
+                if ixv is not None and ixv.get("k") == "Bin" and ixv.get("op") == "+":
+                    for u, w in ((ixv["lhs"], ixv["rhs"]), (ixv["rhs"], ixv["lhs"])):
+                        wv = unwrap_val(rs, w)
+                        if wv is not None and wv.get("k") == "Int" and str(wv.get("v")) == "1":
+                            ixv, plus = unwrap_val(rs, u), 1
+                            break
+                return (rs.path(b_), render(ixv), plus)
+            a, b = seg(lr["start"]), seg(lr["bound"])
+            if a is None or b is None:
+                ck.incomplete(rule, "%s: bounds (%s, %s) of the search loop are not of the form P[r], P[r+1]" % (key, render(lr["start"])[:30], render(lr["bound"])[:30]))
+                continue
+            ok = lr["sign"] > 0 and lr["cmp"] in ("<", "!=") and a[0] == b[0] and a[1] == b[1] and a[2] == 0 and b[2] == 1
+            ck.ob(rule, key, ok, ("search over [%s[%s], %s[%s+1]), restarted for every buffer entry" % (a[0], a[1], a[0], a[1])) if ok else
+                  "the search loop at line %s runs from %s to %s: not the row segment P[r] .. P[r+1] of one offset array and one row" % (L.get("l"), render(lr["start"])[:40], render(lr["bound"])[:40]),
+                  fn.file, L.get("l"))
+        # the search extracted into a helper  pos = find(col_idx, beg, end, col):  a linear equality search over [beg, end) of its parameters, called per buffer entry
+        for c in calls_of(fn):
+            if c.get("k") not in ("Call", "MCall") or (c.get("cfile") or "") != fn.file:
+                continue
+            g = norm.find_callee(fn.facts, c)
+            if g is None or g is fn or g.cfg is None or len(g.params) != len(c.get("a", [])):
+                continue
+            gpar = dfl.parents(g)
+            gm = norm._mods_of(g)
+            for L in dfl.own_nodes(g):
+                if L.get("k") not in ("For", "While"):
+                    continue
+                hit = False
+                for n in dfl.own_walk(L.get("body")):
+                    cn = norm._strip(n.get("c")) if n.get("k") == "If" else None
+                    if cn is not None and cn.get("k") == "Bin" and cn.get("op") == "==" and any(
+                            x.get("k") == "Return" or (x.get("k") == "Break" and norm._jump_loop(gpar, x) is L) for x in walk(n["then"])):
+                        hit = True
+                if not hit:
+                    continue
+                nsearch += 1
+                key = "MatrixMirror::%s(%s)/search#%d" % (fn.name, ",".join(mt) or "?", nsearch)
+                glr = norm.loop_range(g, L, gpar, gm)
+                pidx = {p_["d"]: i_ for i_, p_ in enumerate(g.params)}
+                st_, bd_ = (norm._strip(glr["start"]), norm._strip(glr["bound"])) if glr is not None else (None, None)
+                if glr is None or glr["sign"] < 0 or glr["cmp"] not in ("<", "!=") or st_ is None or bd_ is None or st_.get("k") != "Ref" or bd_.get("k") != "Ref" \
+                        or st_.get("d") not in pidx or bd_.get("d") not in pidx:
+                    ck.incomplete(rule, "%s: the search loop of the helper %s is not a counting loop over [parameter, parameter)" % (key, callee_name(c)))
+                    continue
+
+                def seg2(e):
+                    e = unwrap_val(rs, e)
+                    if e is None or e.get("k") not in ("Index", "OpCall"):
+                        return None
+                    b_, ix = (e["b"], e["idx"]) if e.get("k") == "Index" else (e["a"][0], e["a"][1]) if len(e.get("a", [])) == 2 else (None, None)
+                    if b_ is None:
+                        return None
+                    ixv = unwrap_val(rs, ix)
+                    plus = 0
+                    if ixv is not None and ixv.get("k") == "Bin" and ixv.get("op") == "+":
+                        for u, w in ((ixv["lhs"], ixv["rhs"]), (ixv["rhs"], ixv["lhs"])):
+                            wv = unwrap_val(rs, w)
+                            if wv is not None and wv.get("k") == "Int" and str(wv.get("v")) == "1":
+                                ixv, plus = unwrap_val(rs, u), 1
+                                break
+                    return (rs.path(b_), render(ixv), plus)
+                a, b = seg2(c["a"][pidx[st_["d"]]]), seg2(c["a"][pidx[bd_["d"]]])
+                if a is None or b is None:
+                    ck.incomplete(rule, "%s: arguments (%s, %s) of the search helper %s are not of the form P[r], P[r+1]" % (
+                        key, render(c["a"][pidx[st_["d"]]])[:30], render(c["a"][pidx[bd_["d"]]])[:30], callee_name(c)))
+                    continue
+                ok = a[0] == b[0] and a[1] == b[1] and a[2] == 0 and b[2] == 1
+                ck.ob(rule, key, ok, ("search helper %s over [%s[%s], %s[%s+1]), called for every buffer entry" % (callee_name(c), a[0], a[1], a[0], a[1])) if ok else
+                      "the search helper %s is called with the range %s .. %s: not the row segment P[r] .. P[r+1] of one offset array and one row" % (
+                          callee_name(c), render(c["a"][pidx[st_["d"]]])[:40], render(c["a"][pidx[bd_["d"]]])[:40]), fn.file, c.get("l"))
+
+
+# =====================================================================================================
+# two-pass mirror assembly: the counting pass and the filling pass visit the same entity dimensions
+# =====================================================================================================
+
+def check_mirror_two_pass(ck, facts):
+    """Assembly::Intern::DofMirrorHelpWrapper<Space, MeshPart, dim>::{count, fill} (kernel/assembly/mirror_assembler.hpp): the mirror is allocated with count() entries and
+    filled by fill(); both recurse over the entity dimensions.  Every sub-pass (wrapper of dim-1, helper of dim) that fill() executes on every path is executed by count()
+    on every path as well (and vice versa): an early return in one pass that skips the current dimension's contribution — e.g. when the lower dimensions carry no dofs —
+    yields a mirror that is too small / empty for spaces whose dofs sit on facets or cells only."""
+    rule = "E3.mirror-two-pass"
+    by_cls = {}
+    for fn in facts.functions:
+        if fn.tk != "pattern" and strip_targs(fn.cls) == "FEAT::Assembly::Intern::DofMirrorHelpWrapper" and fn.name in ("count", "fill") and fn.cfg is not None:
+            by_cls.setdefault(fn.cls, {}).setdefault(fn.name, fn)
+    for cls, d in sorted(by_cls.items()):
+        dim = re.search(r", (\d+)>$", cls.strip())
+        key = "DofMirrorHelpWrapper<dim %s>" % (dim.group(1) if dim else "?")
+        if "count" not in d or "fill" not in d:
+            ck.incomplete(rule, "%s: %s pass not instantiated" % (key, "count" if "count" not in d else "fill"))
+            continue
+        passes = {}
+        opaque = {}
+        for name, fn in d.items():
+            subs = {}
+            for c in calls_of(fn):
+                cc = strip_targs(c.get("ccls", "") or "")
+                if c.get("k") == "Call" and cc.startswith("FEAT::Assembly::Intern::DofMirror") and callee_name(c) == name:
+                    mp, _ = fn.cfg.must_pass(lambda n_, c=c: n_.get("i") == c["i"])
+                    dm = re.search(r", (\d+)>$", (c.get("ccls") or "").strip())
+                    subs[(cc.rsplit("::", 1)[-1], dm.group(1) if dm else "?")] = (mp, c)
+                elif c.get("k") in ("Call", "MCall") and c.get("callee") != "FEAT::assertion" and not c.get("cconst") and norm.find_callee(fn.facts, c) is not None:
+                    opaque.setdefault(name, c)
+            passes[name] = subs
+        problems = []
+        for a_, b_ in (("fill", "count"), ("count", "fill")):
+            for sub, (mp, c) in passes[a_].items():
+                if not mp:
+                    continue
+                other = passes[b_].get(sub)
+                if other is None:
+                    problems.append((d[b_].line, "%s() visits %s<dim %s> on every path, %s() never does" % (a_, sub[0], sub[1], b_)) if b_ not in opaque else (d[b_].line, "?"))
+                elif not other[0]:
+                    problems.append((other[1].get("l"), "%s() visits %s<dim %s> on every path, but %s() skips it on some path (early return / condition before line %s): the two passes "
+                                     "disagree on the number of mirrored dofs" % (a_, sub[0], sub[1], b_, other[1].get("l"))))
+        if any(p_[1] == "?" for p_ in problems):
+            ck.incomplete(rule, "%s: a sub-pass of one pass has no counterpart in the other, which calls %s (not modelled)" % (key, render(list(opaque.values())[0])[:50]))
+            continue
+        ck.ob(rule, key, not problems, "; ".join("line %s: %s" % p_ for p_ in problems) or
+              "count() and fill() visit the same sub-passes on every path: %s" % ", ".join("%s<dim %s>" % s_ for s_ in sorted(passes["fill"])), d["count"].file, problems[0][0] if problems else d["count"].line)
+
+
+# =====================================================================================================
 # tuple mirrors: component k of a tuple vector lives at buffer offset (own offset + sizes of the components before it), for packing AND unpacking
 # =====================================================================================================
 
@@ -2891,6 +3081,12 @@ def declare_rules(ck):
     ck.rule("E2.const-input-not-aliased", "a local obtained as in.clone(mode) from an object reachable through a const parameter / const this and modified afterwards "
             "(from_1_to_0, sync, scale, passed as output ...) owns its value array: mode is Deep / Weak / Layout / Allocate, never Shallow (which shares the values with the const "
             "input). Broken => the caller's input vector / matrix is changed in place on every multi-process call", 6)
+    ck.rule("E2.search-restart", "LAFEM::MatrixMirror::{gather, scatter_axpy} (CSR, BCSR): the linear equality search for the matrix entry that matches a buffer entry runs over the row "
+            "segment [row_ptr[r], row_ptr[r+1]) and its cursor is re-initialised for every buffer entry. Broken (cursor kept across entries, 'sorted' assumption) => after the first "
+            "received entry that is not in the local stencil the rest of that buffer row is dropped: type-1 matrices wrong at re-entrant corners", 4)
+    ck.rule("E3.mirror-two-pass", "Assembly::Intern::DofMirrorHelpWrapper::{count, fill} (kernel/assembly/mirror_assembler.hpp): the counting pass and the filling pass of the mirror "
+            "recursion visit the same sub-passes (wrapper of dim-1, helper of dim) on every path. Broken (count returns 0 when the lower dimensions carry no dofs) => spaces with "
+            "dofs on facets / cells only get an empty mirror: nothing is synchronised", 3)
     ck.rule("E2.tuple-mirror-layout", "LAFEM::TupleMirror::{gather, scatter_axpy, buffer_size} (kernel/lafem/tuple_mirror.hpp, the packing layer of every tuple gate): the first component is "
             "packed / unpacked at the function's own buffer offset, the remaining components at own offset + first.buffer_size(vector.first()), buffer_size is the sum over all "
             "components — gather and scatter_axpy address the same buffer cells. Broken (recursion step drops the incoming offset) => wrong for tuples with >= 3 components and for "
@@ -2931,7 +3127,7 @@ def analyse(ck, facts, label):
     # with such same-file helpers inlined (parameters bound, CFG spliced); check_requests / check_coherence / check_exchange_order follow helpers themselves
     inl = norm.InlinedFacts(facts, inline_select)
     from checks import c18 as _c18
-    for rule_fn in (check_global_matrix, check_gate, check_global_vector, check_reductions, check_muxer, check_const_alias, check_global_copy):
+    for rule_fn in (check_global_matrix, check_gate, check_global_vector, check_reductions, check_muxer, check_const_alias, check_global_copy, check_matrix_mirror_search):
         norm.run_with_inlining(ck, rule_fn, facts, inl)
     check_exchange_order(ck, facts)
     norm.run_with_inlining(ck, _c18.check_global_transfer, facts, inl)
@@ -2943,7 +3139,7 @@ def run(tier):
     facts = load(ck)
     analyse(ck, facts, "double,u64")
     try:
-        fg = featlib.extract("tu/c13_gate_asm.cpp", files=R("control/asm/gate_asm.hpp") + "|" + R("kernel/lafem/tuple_mirror.hpp"), mpi=True)
+        fg = featlib.extract("tu/c13_gate_asm.cpp", files=R("control/asm/gate_asm.hpp") + "|" + R("kernel/lafem/tuple_mirror.hpp") + "|" + R("kernel/assembly/mirror_assembler.hpp"), mpi=True)
         ck.tu(fg)
         for e in fg.errors_outside_repo():
             ck.incomplete("E1.tuple-gate-components", "driver tu/c13_gate_asm.cpp no longer matches the API: %s:%s %s" % (e["file"], e["line"], e["msg"]))
@@ -2951,6 +3147,7 @@ def run(tier):
             ck.incomplete("E1.tuple-gate-components", "front-end error while instantiating build_gate_tuple: %s:%s %s" % (rel(e["file"]), e["line"], e["msg"]))
         norm.run_with_inlining(ck, check_gate_tuple, fg, norm.InlinedFacts(fg, inline_select))
         norm.run_with_inlining(ck, check_tuple_mirror, fg, norm.InlinedFacts(fg, inline_select))
+        norm.run_with_inlining(ck, check_mirror_two_pass, fg, norm.InlinedFacts(fg, inline_select))
     except featlib.AnalysisBroken as e:
         ck.incomplete("E1.tuple-gate-components", "tu/c13_gate_asm.cpp: MPI parse failed: %s" % str(e)[:200])
     if tier != "quick":
